@@ -259,9 +259,9 @@ def _comp(t, T):
     lams = lam if vec else [lam]
     evs = []
 
-    def call(tag, ws, rho):
+    def call(tag, ws, rho, warr=None):
         """one call of the calculator -> one event per wavelength (values copied out before anything else happens)"""
-        res = calc(np.array(ws, dtype=float), density=rho)
+        res = calc(np.array(ws, dtype=float) if warr is None else warr, density=rho)
         # direct calculation on the weighted sum
         total = None
         for w, m in zip(ws, mats):
@@ -287,7 +287,8 @@ def _comp(t, T):
         for x in res:
             if isinstance(x, np.ndarray) and x.ndim > 0:
                 x += 8.72
-    res = call("", ws, t["density"])
+    w = np.array(ws, dtype=float)            # one weight array for the whole life of the calculator (a fit loop)
+    res = call("", ws, t["density"], warr=w)
     if t.get("again"):
         # the same calculator used again after the caller has written into earlier results
         scribble(res)
@@ -295,6 +296,11 @@ def _comp(t, T):
         scribble(call(":zz", [0.0 for _ in ws], t["density"]))
         call(":z3", ws, 0.0)
         call(":r", ws, t["density"])
+        # ... changed in place between calls
+        call(":w0", list(w), t["density"], warr=w)
+        w[0] += 1.0
+        w *= 1.5
+        call(":w1", list(w), t["density"], warr=w)
     return evs
 
 
